@@ -5,3 +5,6 @@ chk("C06", "runtime monitoring: set-model oracle over random operation histories
 chk("C13", "runtime monitoring: brute-force interval oracle over insertion histories + interval-tree invariant hook",
     "Insertion/coalesce histories on a dense discrete timeline; every point, range and full-scan answer, duplicates, limit errors and counts are compared with brute force over the list of inserted pairs; a verif-tagged walker checks search-tree order, maxEnd soundness and size of every tree at each quiescent point. Held on the histories executed.",
     "Atoms of the workload have distinct hashes (hash conflation is the C06 finding). Coalesce is judged by preserved instants and pairwise separation of finite intervals, not by a particular representation.")
+chk("C09", "runtime monitoring: print/parse round-trip oracle with an independent structural comparison",
+    "Generated constants, atoms, type expressions and clause syntax trees are printed with String(), parsed back by the real parser and compared by a structural walk that uses neither Equals, Hash nor String of the library (constants by canonical encoding after EvalExpr). Held on the terms executed.",
+    "Trusts functional.EvalExpr for turning constructor expressions into constants (checked separately by C07) and the harness's comparison walk.")
